@@ -26,6 +26,16 @@ def _ann(kind, tgt, future, hname=None):
     raise KeyError(kind)
 
 
+def view(ns):
+    """harness-side namespace in which nested classes are addressable by their short names (the module itself has no such aliases)"""
+    outer = ns.get("Outer")
+    if outer is None:
+        return ns
+    v = dict(ns)
+    v.update({k: x for k, x in vars(outer).items() if isinstance(x, type)})
+    return v
+
+
 class Topo:
     def __init__(self, n, links):
         """links: tuple per node of tuple of (target index, kind)"""
@@ -38,22 +48,29 @@ class Topo:
     def kinds(self):
         return sorted({k for ls in self.links for _, k in ls})
 
-    def source(self, future):
+    def source(self, future, nested=False):
+        """nested=True: every class is defined inside `class Outer:` and referred to as Outer.C<i>."""
         lines = ["from __future__ import annotations"] if future else []
         lines += ["import dataclasses, typing", ""]
         helpers = []
         classes = []
+        q = "Outer." if nested else ""
         for i, ls in enumerate(self.links):
             body = [f"@dataclasses.dataclass", f"class C{i}:", "    v: int = 0"]
             for j, (t, k) in enumerate(ls):
                 hname = f"H{i}_{j}"
-                a, d = _ann(k, f"C{t}", future, hname)
+                a, d = _ann(k, f"{q}C{t}", future, f"{q}{hname}")
+                if k == "member" and nested:
+                    d = f"dataclasses.field(default_factory=lambda: Outer.{hname}())"
                 body.append(f"    l{j}: {a} = {d}")
                 if k == "member":
-                    tq = f"C{t} | None" if future else f'"C{t} | None"'
+                    tq = f"{q}C{t} | None" if future else f'"{q}C{t} | None"'
                     helpers.append(f"@dataclasses.dataclass\nclass {hname}:\n    x: {tq} = None\n")
             classes.append("\n".join(body) + "\n")
-        return "\n".join(lines) + "\n" + "\n".join(helpers) + "\n" + "\n".join(classes)
+        body = "\n".join(helpers) + "\n" + "\n".join(classes)
+        if nested:
+            body = "class Outer:\n" + "\n".join(("    " + ln if ln else ln) for ln in body.split("\n")) + "\n"
+        return "\n".join(lines) + "\n" + body
 
     # ---- values: follow the first link for deep chains, all links while depth <= full
     def wire(self, node, d, full=2, level=0, ints=False):
